@@ -71,7 +71,7 @@ def required_counters(tier):
         "route.pickle": 400,
         "route.copy": 100,
         "route.deepcopy": 100, "roundtrips.two_hops": 300,
-        "loads_after_state_change": 30, "roundtrips.made_while_checking_disabled": 30,
+        "loads_after_state_change": 30, "roundtrips.made_while_checking_disabled": 30, "sibling_loads_after_previous_copy_was_collected": 200,
     }
 
 
@@ -234,6 +234,9 @@ def mech(expr, route, where, how):
     return f"{route.rstrip('2345')}-{where}-{tag}-{how}"
 
 
+loaded_tmp = []
+
+
 def run_shard(rec, seed, shard, tier):
     warnings.filterwarnings("ignore")
     scratch = tempfile.mkdtemp(prefix="jtv_c20_")
@@ -334,6 +337,22 @@ def run_shard(rec, seed, shard, tier):
                         except Exception as e:  # noqa
                             rec.violation("roundtrip-raises", {"exprs": [e_ for e_, _ in built], "route": route}, f"{route} of a group raised {type(e).__name__}: {e}", mechanism=f"{route.rstrip('2345')}-group-raises")
                             continue
+                        # ... and loaded one after the other with each copy DROPPED and collected before the next one is
+                        # loaded (whatever the loader remembers about a dead class must not leak into the next)
+                        import gc
+
+                        blobs = [dumps(route, a) for _, a in built]
+                        del loaded_tmp[:]
+                        for rep in range(2):
+                            for i, (e_, a) in enumerate(built):
+                                cp_ = pickle.loads(blobs[i])
+                                hh, vv = vec_hash(cp_)
+                                rec.count("sibling_loads_after_previous_copy_was_collected")
+                                if hh != origs[i][0]:
+                                    rec.violation("meaning-changed", {"exprs": [x for x, _ in built], "index": i, "route": route, "how": "previous copies dropped and collected"}, f"{route}: annotation #{i} {e_} loaded after its siblings' copies had been dropped and garbage-collected accepts differently: {first_diff(origs[i][1], vv)}", mechanism=f"{route.rstrip('2345')}-load-after-collected-sibling-differs")
+                                    break
+                                del cp_
+                                gc.collect()
                         for i, (e_, a) in enumerate(built):
                             for how, cp in (("one-dict", loaded[i]), ("kept-alive", alive[i])):
                                 hh, vv = vec_hash(cp)
